@@ -820,6 +820,10 @@ func argRoot(arg ssa.Value) func(ssa.Value) bool {
 // callerGuardsRelPath: at the call site, the value with relative path rp under the argument is known non-nil
 // (nil test with failing edge dominating the call), or — for element paths — the elements were loop-checked.
 func (w *World) callerGuardsRelPath(cs *Site, arg ssa.Value, rp string) bool {
+	return w.callerGuardsRelPathD(cs, arg, rp, 0)
+}
+
+func (w *World) callerGuardsRelPathD(cs *Site, arg ssa.Value, rp string, depth int) bool {
 	fn := cs.Caller
 	isRoot := argRoot(arg)
 	match := func(v ssa.Value) bool {
@@ -940,6 +944,99 @@ func (w *World) callerGuardsRelPath(cs *Site, arg ssa.Value, rp string) bool {
 			}
 		}
 	}
+	// element field: "<container>[*]<rest>": a loop over <container> hands every element to a helper that rejects a nil
+	// <rest> under it, fails when the helper fails, and is finished before this call
+	if i := strings.Index(rp, "[*]"); i >= 0 && strings.Count(rp, "[*]") == 1 && rp[i+3:] != "" {
+		contPath, rest := rp[:i], rp[i+3:]
+		for _, l := range rangeLoops(fn) {
+			if l.Over == nil {
+				continue
+			}
+			got, ok := relPathTo(l.Over, isRoot)
+			if !ok || got != contPath || !l.Header.Succs[1].Dominates(cs.Instr.Block()) || loopEarlyExitOK(l) {
+				continue
+			}
+			checked := func(b *ssa.BasicBlock) bool {
+				for _, in := range b.Instrs {
+					c, ok := in.(*ssa.Call)
+					if !ok || c.Common().IsInvoke() {
+						continue
+					}
+					h := c.Common().StaticCallee()
+					if h == nil || h.Blocks == nil {
+						continue
+					}
+					for j, a2 := range c.Common().Args {
+						if j >= len(h.Params) {
+							continue
+						}
+						ec := elementContainer(a2)
+						if ec == nil {
+							if u, isU := a2.(*ssa.UnOp); isU && u.Op == token.MUL {
+								ec = elementContainer(u.X)
+							}
+						}
+						if ec == nil || !(ec == l.Over || samePath(ec, l.Over)) {
+							continue
+						}
+						if !w.helperRejectsNilAt(h, h.Params[j], rest) {
+							continue
+						}
+						fail := NilEdges(fn, errValues(fn, c), false)
+						good := len(fail) > 0
+						for _, e := range fail {
+							if !FailsFrom(e.To()) {
+								good = false
+							}
+						}
+						if good {
+							return true
+						}
+					}
+				}
+				return false
+			}
+			if loopBodyMustPass(l, checked) {
+				return true
+			}
+		}
+	}
+	// the caller only hands its own parameter (or a component of it) on: the composed path must be guarded before
+	// every call of the caller
+	if depth < 3 {
+		for idx, cand := range fn.Params {
+			rp2, ok := relPathTo(arg, paramRoot(fn, cand))
+			if !ok {
+				if arg == ssa.Value(cand) {
+					rp2, ok = "", true
+				}
+			}
+			if !ok {
+				continue
+			}
+			callers := w.CG().Callers[fn]
+			if len(callers) == 0 {
+				return false
+			}
+			for _, cs2 := range callers {
+				a := cs2.Common().Args
+				var arg2 ssa.Value
+				if cs2.Common().IsInvoke() {
+					if idx == 0 {
+						arg2 = cs2.Common().Value
+					} else if idx-1 < len(a) {
+						arg2 = a[idx-1]
+					}
+				} else if idx < len(a) {
+					arg2 = a[idx]
+				}
+				if arg2 == nil || !w.callerGuardsRelPathD(cs2, arg2, rp2+rp, depth+1) {
+					return false
+				}
+			}
+			return true
+		}
+	}
 	return false
 }
 
@@ -1014,4 +1111,61 @@ func (ts *taintState) vbRejectedLabels(vbReach map[*ssa.Function]*ssa.Function) 
 		}
 	}
 	return out
+}
+
+// loopEarlyExitOK reports that the loop can be left before all elements were visited by something else than a failure.
+func loopEarlyExitOK(l rangeLoop) bool {
+	b := loopEarlyExit(l)
+	return b != nil && !FailsFrom(b)
+}
+
+// helperRejectsNilAt: the error-returning helper h returns a nil error only after a nil test (comparison with nil or
+// IsNil()) of the component at path rp under its parameter prm took the non-nil edge.
+func (w *World) helperRejectsNilAt(h *ssa.Function, prm *ssa.Parameter, rp string) bool {
+	hRoot := paramRoot(h, prm)
+	hm := func(v ssa.Value) bool {
+		got, ok := relPathTo(v, hRoot)
+		return ok && got == rp
+	}
+	hedges := EdgesWhere(h, func(base ssa.Value) (bool, bool) {
+		switch c := base.(type) {
+		case *ssa.BinOp:
+			if c.Op != token.EQL && c.Op != token.NEQ {
+				return false, false
+			}
+			var o ssa.Value
+			if isNilConst(c.Y) {
+				o = c.X
+			} else if isNilConst(c.X) {
+				o = c.Y
+			}
+			if o != nil && hm(o) {
+				return c.Op == token.NEQ, true
+			}
+		case *ssa.Call:
+			a := c.Common().Args
+			if len(a) > 0 && hasSuffixAny(callName(c.Common()), ".IsNil") && hm(a[0]) {
+				return false, true
+			}
+		}
+		return false, false
+	})
+	if len(hedges) == 0 {
+		return false
+	}
+	n := 0
+	for _, ret := range Returns(h) {
+		rv := retVals(ret)
+		if len(rv) == 0 || !isErrorType(rv[len(rv)-1].Type()) {
+			return false
+		}
+		if nonNilAt(rv[len(rv)-1], ret.Block(), 0) {
+			continue
+		}
+		n++
+		if !MustPass(h, hedges, ret.Block()) {
+			return false
+		}
+	}
+	return n > 0
 }
